@@ -56,11 +56,11 @@ prop('C15', units=['bk', 'ord'], level='proof',
      not_covered=['whole-history statement for later sales that are superficial losses (step-level ratio invariance only)', 'rounded split factors (model E)', 'acceptance of rounded factors'],
      witnesses=['D13'])
 
-prop('C16', units=['bk', 'ord', 'drv'], level='proof',
-     technique='Verus: AffiliatePortfolioSecurityStatuses::new view postcondition + lemma_opening_equiv / theorem_buy_block (opening status == state after opening Buys) + ledger fold from init_stv; run_acb_app_to_delta_models (the default affiliate is an extra holder of global splits exactly when the security has an opening position; only the security\'s own entry is read); parse_initial_status (what -b yields satisfies the driver\'s precondition init_ok)',
+prop('C16', units=['bk', 'ord', 'drv', 'rnd'], level='proof',
+     technique='Verus: AffiliatePortfolioSecurityStatuses::new view postcondition + lemma_opening_equiv / theorem_buy_block (opening status == state after opening Buys) + ledger fold from init_stv; run_acb_app_to_delta_models (the default affiliate is an extra holder of global splits exactly when the security has an opening position; only the security\'s own entry is read); parse_initial_status (what -b yields satisfies the driver\'s precondition init_ok); cmd::command_main and run_acb_app_to_console (unit rnd): the command line layer hands the opening positions of parse_initial_status, a fresh RateLoader and the options as given to the library entry point, whose preconditions (init_ok, loader invariant, input size) are discharged there',
      level_text='Deductive proof (Verus) that the ledger started from an opening status equals the ledger after the corresponding Default-affiliate purchase (state equality, then the same fold, theorem_scaled_ledgers with k = 1), that the driver hands exactly the security\'s own opening position to its ledger and to the split expansion, and that parse_initial_status produces, for all argument lists, opening positions of the default affiliate alone with a cost base, filed under their own security.',
      level_note=BK_NOTE + ' Splitting at ":", trimming and number syntax of the -b argument are stand-ins without assumptions (hole_split_colon, hole_trim_string, Decimal::from_str).',
-     not_covered=['syntax of the -b argument (string code)', 'the glue between parse_initial_status and run_acb_app_to_render_model in cmd.rs / the async I/O driver (witness D11)'],
+     not_covered=['syntax of the -b argument (string code)', 'command-line parsing (clap); the summary-mode front end run_acb_app_summary_to_console (its preconditions are stated and discharged at the call, its printing is not verified)'],
      witnesses=['D11'])
 
 prop('C17', units=['costs', 'rnd', 'bk', 'ord'], level='proof',
@@ -142,10 +142,10 @@ prop('C18', units=['conv', 'qt', 'xlr', 'drv', 'xc'], level='proof',
      witnesses=['D7', 'D17'])
 
 prop('C20', units=['pdf', 'fmv'], level='proof',
-     technique='Verus: safe_page_chunks_with_remainder_pn (every page 1..=n in some group, none out of range, no empty group) and OptimizedPageIter::next (never requests an unloaded / non-existent page, no unwrap/index failure); FmvParseSm (parse_page, gather_security_line, gather_total_line, finalize_security_fmv, parse_fmvs_from_page) against the spec function `run` (line-by-line reading), and theorem_layout / theorem_layout_empty: on every table of the documented layout `run` yields each row exactly once, in order, with the table total',
+     technique='Verus: safe_page_chunks_with_remainder_pn (every page 1..=n in some group, none out of range, no empty group) and OptimizedPageIter::next (never requests an unloaded / non-existent page, no unwrap/index failure); FmvParseSm (parse_page, gather_security_line, gather_total_line, finalize_security_fmv, parse_fmvs_from_page) against the spec function `run` (line-by-line reading), and theorem_layout / theorem_layout_empty: on every table of the documented layout `run` yields each row exactly once, in order, with the table total; parse_statement_text: the table is read from the first page that carries the table heading (no earlier page skipped in the search), the statement month is the first readable month line up to that page, and a statement is refused only for a stated reason (no heading page, unreadable table, no month line, a month line that is not a date)',
      level_text='Deductive proof (Verus). Page order: for all hint lists and page counts. Allocation table: the real state machine is verified against a recursive spec function over the lines of the page, for all pages; and for all pages whose table follows the documented layout (stated declaratively: header line, rows = first line + continuation lines whose joined text parses, a total-looking line inside a row only while the text so far does not parse, total row) that function returns exactly the rows, once each, and the total. What a regular expression matches / captures, str::trim/contains/lines and the meaning of one row text are uninterpreted functions of the text.',
-     level_note='load_pages (pdf text extraction) and get_num_pages < u32::MAX are assumed; Iterator::next is verified as an inherent method (rule R23); hole_missing_pages / hole_to_deque paraphrase std iterator chains. fmv: regex / str stand-ins of shim/fmv_stubs.rs (group 1 of SEC_FIRST_ROW_RE and TOTAL_ROW_RE takes part in every match); security_text_to_fmv and parse_large_decimal are assumed to be functions of their text.',
-     not_covered=['what SEC_DATA_RE extracts from a row text (description / allocation / value split)', 'month line and page selection of parse_statement_text', 'pdf text extraction'],
+     level_note='load_pages (pdf text extraction) and get_num_pages < u32::MAX are assumed; Iterator::next is verified as an inherent method (rule R23); hole_missing_pages / hole_to_deque paraphrase std iterator chains. parse_statement_text: the generic page iterator becomes a list of page texts (R35), the body of the month-line branch (month name, integer parsing, Date::from_calendar_date) is one hole with the same three outcomes (ignored / date / refusal). fmv: regex / str stand-ins of shim/fmv_stubs.rs (group 1 of SEC_FIRST_ROW_RE and TOTAL_ROW_RE takes part in every match); security_text_to_fmv and parse_large_decimal are assumed to be functions of their text.',
+     not_covered=['what SEC_DATA_RE extracts from a row text (description / allocation / value split)', 'what the month line regex captures and how month names / numbers are read (one uninterpreted function of the page text)', 'pdf text extraction'],
      witnesses=[])
 
 
